@@ -33,14 +33,23 @@ def judge(stim, ev):
                 return f"{f}: unhandled message accepted, trace {ob['trace']}"
         elif ob["err"] or ob["trace"] != ex["trace"]:
             return f"{f}: trace {ob['trace']} {ob['err']} want {ex['trace']}"
-        if ex["vfrom"]:
+        # the message :v: the accessor of the first flavor that declares v, or a method the user wrote for it, whichever flavor comes first
+        user = ex["getv"] if ex["getv"].startswith("user:") else ""
+        if user:
+            if ob["vdef"] != f'="{user}"':
+                return f"{f}: (send inst :v) is {ob['vdef']}, want the method of {user[5:]}"
+        elif ex["getv"] == "val":
             if ob["vdef"] != f'="{ex["vfrom"]}"':
                 return f"{f}: default of v is {ob['vdef']}, want the one declared by {ex['vfrom']}"
-            if ob["vinit"] != "=7":
-                return f"{f}: init keyword :v gives {ob['vinit']}, want 7"
-        else:
-            if ob["vdef"].startswith("=") or ob["vinit"].startswith("="):
-                return f"{f}: has no variable v by inheritance but :v answered {ob['vdef']} / {ob['vinit']}"
+        elif ob["vdef"].startswith("="):
+            return f"{f}: no flavor in its precedence answers :v but it answered {ob['vdef']}"
+        # the init keyword :v exists when a flavor of the precedence list declares v
+        if ex["vfrom"]:
+            want = f'="{user}"' if user else "=7"
+            if ob["vinit"] != want:
+                return f"{f}: (send (make-instance f :v 7) :v) is {ob['vinit']}, want {want}"
+        elif ob["vinit"].startswith("="):
+            return f"{f}: has no variable v by inheritance but the init keyword :v was accepted: {ob['vinit']}"
     return ""
 
 
@@ -92,7 +101,7 @@ def run(tier, seed):
                             f"<={depth} forms, flavors named in definition order, VIEW on the definitions) - exhaustive; (b) the final "
                             f"states of {walks} random walks per seed through the same Next relation with 7 flavors, <=3 components, 14 forms. "
                             "After each history every defined flavor is instantiated and sent :m; precedence list, daemon trace, default / "
-                            "accessor / init keyword of variable v are compared with what TLC computed from the reference. "
+                            "accessor (also against methods the user wrote for the accessor's message on any flavor) / init keyword of variable v are compared with what TLC computed from the reference. "
                             "distinct_nontrivial = distinct expected observations (precedence lists + traces) among the histories",
                     "samples": [{"stimulus": s["ops"], "expect": s["expect"]} for s in (stimuli[n_bfs // 2], stimuli[-1])],
                     "gen": {"bfs": g, "sim": sims}, "probes": {k: len(v) for k, v in hit.items()}})
